@@ -280,6 +280,12 @@ func (x *Exec) callModifies(c *ssa.CallCommon) ([]string, bool) {
 
 func (x *Exec) modKeys(fc *FuncContract) []string {
 	ks := []string{"alloc"}
+	// ghost state the contract updates is written too
+	for _, cl := range fc.clauses("ghost") {
+		if i := strings.Index(cl.Name, "("); i > 0 {
+			ks = append(ks, "ghost:"+strings.TrimSpace(cl.Name[:i]))
+		}
+	}
 	for _, m := range fc.Modifies {
 		if strings.HasPrefix(m, "heap(") {
 			ks = append(ks, strings.TrimSuffix(strings.TrimPrefix(m, "heap("), ")"))
